@@ -173,6 +173,14 @@ Theorem timeout_check_spacing :
 Proof. exact timeout_check_spacing_proof. Qed.
 Print Assumptions timeout_check_spacing.
 
+(* block phase: the guard of the clock read is a function of the offset INSIDE the current block, so it matters that every
+   block -- whatever its size >= 1 -- reads the clock at least once (at offset 0); together with timeout_check_spacing
+   (reads at most block_check_modulus bytes apart) a scan delivered in small blocks (yr_scanner_scan_mem_blocks with a
+   page-wise iterator, process scanning) is not exempt from the deadline.  The whole guard is regenerated from scanner.c. *)
+Theorem every_block_reads_clock : forall size, 1 <= size -> exists i, 0 <= i < size /\ block_reads_clock i = true.
+Proof. exact every_block_reads_clock_proof. Qed.
+Print Assumptions every_block_reads_clock.
+
 (* once the VM's test sees the deadline passed (result = ERROR_SCAN_TIMEOUT, stop = true) no further instruction executes:
    the test is the last statement of the body of `while (!stop)`, after the switch.  (Were it before the opcode fetch, one more
    instruction would run, and OP_ITER_NEXT / OP_CALL / OP_MATCHES / OP_IMPORT overwrite result or stop.)  The position is
